@@ -180,9 +180,9 @@ prop('C09', COMMON +
      'by the constant hard line break in the sequence it is emitted into. TRAVERSAL/SIBLING(T-prc): the printer reads every comment-reference slot. '
      'COMMENT-REF-UNIQUE: a comment reference read out of a node is not stored in a second node while the first is kept. '
      'NODE-LEADING-COMMENTS: a node handed to a printer function that does not print the node\'s leading comments has that slot read by the function handing it over, '
-     'the functions it calls or its callers (per hand-over, not only once per slot). CHILD-EXPR-COMMENTS: a sub-expression handed to a printer that does not cover its argument on every path has its leading comments read by the function handing it over. SORT-KEY-LOSSY (clause "format --check is stable"): the merged import groups, kept in a hash map, are ordered by a key that is not a lossy function of the module path, so two groups never tie and fall back to hash order. Does not decide '
+     'the functions it calls or its callers (per hand-over, not only once per slot). CHILD-EXPR-COMMENTS: a sub-expression handed to a printer that does not cover its argument on every path has its leading comments read by the function handing it over. COMMENT-TOKEN-KEPT: in the token pump of the parser every comment token received from the lexer is pushed as a pending comment on every path back to the next token request. SORT-KEY-LOSSY (clause "format --check is stable"): the merged import groups, kept in a hash map, are ordered by a key that is not a lossy function of the module path, so two groups never tie and fall back to hash order. Does not decide '
      'idempotence of the layout nor that a stored comment is printed in the right place.',
-     [comment_linear.run, comment_linear.run_fresh_reference, comment_linear.run_comment_order, comment_linear.run_comment_ref_unique, printer_rules.run_id_comment_pair, printer_rules.run_line_comment_break, printer_rules.run_element_comments, node_comments.run, node_comments.run_child_expr, order_taint.run_sort_key_lossy_printer, TI.make(['T-prc'])])
+     [comment_linear.run, comment_linear.run_fresh_reference, comment_linear.run_comment_order, comment_linear.run_comment_ref_unique, printer_rules.run_id_comment_pair, printer_rules.run_line_comment_break, printer_rules.run_element_comments, node_comments.run, node_comments.run_child_expr, order_taint.run_sort_key_lossy_printer, comment_linear.run_comment_token_kept, TI.make(['T-prc'])])
 
 prop('C11', COMMON +
      'TRAVERSAL/SIBLING(T-gc): the PStr-bearing fields reachable from Module<Arc<Type>> (type walk over the ADT table) '
@@ -193,7 +193,7 @@ prop('C11', COMMON +
      'server_state module mutates those maps, and UPDATE-ORDER (shared with C10) checks that the mutators insert/remove '
      'all per-module maps under the same keys. POP-MUST-MARK: in the GC driver every module reference popped from the '
      'unmarked set is looked up and marked on every path before the next pop or return.',
-     [TI.make(['T-gc']), gc_rules.run, gc_rules.run_gc_roots, gc_rules.run_store_pairing, lookup_unwrap.run, lookup_unwrap.run_writers, incremental.run_order, incremental.run_errors,
+     [TI.make(['T-gc']), gc_rules.run, gc_rules.run_gc_roots, gc_rules.run_store_pairing, lookup_unwrap.run, lookup_unwrap.run_find_unwrap, lookup_unwrap.run_writers, incremental.run_order, incremental.run_errors,
       witness.run_for(['WState'], 'C11: outside samlang-services the state maps cannot be written (compile-fail witnesses)')],
      ['A-11.1: a field read by the marker family is actually passed to Heap::mark (read, not checked)',
       'A-11.2: every PStr held in parsed_modules/global_cx/errors also occurs in some checked module'])
@@ -204,7 +204,7 @@ prop('C15', COMMON +
      'fields of the checker\'s SsaAnalysisResult, which is only obtained from perform_ssa_analysis_on_module (no second '
      'scope resolver). NAV-VIA-SSA: every path of a navigation query that handles a local-name hit passes through the SSA '
      'lookup. LOC-GUARD: a cursor-position test gating the descent into a child tests a location of that child or of a node '
-     'containing it (sibling locations only where the parser provably widens them). RENAME-RELEVANCE: the unconditional rewrite of a variable occurrence is reached only behind a range test of the expression (or for the single child of a binder-free node). IDENT-ALPHABET keyword-gate: the new name is read back by the parser before a renaming is applied. PEEK-THEN-VISIT: where a function of the walker family inspects the variant of a child node it reaches through a slot of its parent, the variants it does not name are still handed to the family\'s visitor for that node type on every path (they are not treated as leaves). Does not decide capture-freedom of the new name or behavioural identity after rename.',
+     'containing it (sibling locations only where the parser provably widens them). RENAME-RELEVANCE: the unconditional rewrite of a variable occurrence is reached only behind a range test of the expression (or for the single child of a binder-free node). IDENT-ALPHABET keyword-gate: the new name is read back by the parser before a renaming is applied. PEEK-THEN-VISIT: where a function of the walker family inspects the variant of a child node it reaches through a slot of its parent, the variants it does not name are still handed to the family\'s visitor for that node type on every path (they are not treated as leaves). FIND-UNWRAP: a search result (`find` / `position`) that a request handler unwraps comes from a search whose predicate is the bare location-containment test that the preceding position lookup established - an added conjunct is not covered by that lookup. Does not decide capture-freedom of the new name or behavioural identity after rename.',
      [ssa_shared.run, ssa_shared.run_nav_via_ssa, ssa_shared.run_ident_alphabet, printer_rules.run_pattern_parens, loc_guard.run, loc_guard.run_rename_relevance, scope.run_iflet_else, TI.make(['T-ren', 'T-ssa'])])
 
 # properties whose reports on the unchanged tree are not yet triaged are not claimed
